@@ -280,3 +280,105 @@ def regex_match_pattern(fi, call):
     if isinstance(v, ast.Call) and isinstance(v.func, ast.Attribute) and v.func.attr == "compile" and v.args:
         return const_of(v.args[0])
     return None
+
+
+def unroll_const_loops(fi):
+    """A copy of ``fi`` in which every ``for <target> in <constant sequence>`` is written out: the body once per element, the
+    loop variable(s) replaced by the element (the if-chain a table-driven loop stands for).  The sequence is a tuple / list
+    literal - in place, in a local bound once, or in a module- / class-level constant - of names, attributes, constants, or
+    tuples of those; loops whose body breaks, continues or rebinds the loop variable are left alone.  Returns ``fi`` itself when
+    there is nothing to write out."""
+    import copy
+
+    if getattr(fi, "_unrolled", None) is not None:
+        return fi._unrolled
+
+    def pure(e):
+        if isinstance(e, (ast.Name, ast.Constant)):
+            return True
+        if isinstance(e, ast.Attribute):
+            return pure(e.value)
+        if isinstance(e, (ast.Tuple, ast.List)):
+            return all(pure(x) for x in e.elts)
+        return False
+
+    binds = {}
+    for n in walk_no_nested(fi.node):
+        if isinstance(n, (ast.Assign, ast.AugAssign, ast.For)):
+            for t in (n.targets if isinstance(n, ast.Assign) else [n.target]):
+                for x in ast.walk(t):
+                    if isinstance(x, ast.Name):
+                        binds.setdefault(x.id, []).append(n)
+
+    def seq_of(it):
+        if isinstance(it, ast.Name):
+            b = binds.get(it.id, [])
+            if len(b) == 1 and isinstance(b[0], ast.Assign):
+                it = b[0].value
+            elif not b and it.id in fi.module.assigns:
+                it = fi.module.assigns[it.id]
+        elif isinstance(it, ast.Attribute) and isinstance(it.value, ast.Name) and it.value.id in ("self", "cls") and fi.cls is not None and it.attr in fi.cls.attrs:
+            it = fi.cls.attrs[it.attr]
+        if isinstance(it, (ast.Tuple, ast.List)) and it.elts and all(pure(e) for e in it.elts):
+            return it.elts
+        return None
+
+    changed = [False]
+
+    class U(ast.NodeTransformer):
+        def visit_FunctionDef(self, node):
+            if node is not fi.node and node is not root:
+                return node
+            self.generic_visit(node)
+            return node
+
+        def visit_Lambda(self, node):
+            return node
+
+        def visit_For(self, node):
+            self.generic_visit(node)
+            elts = seq_of(node.iter)
+            if elts is None or node.orelse:
+                return node
+            tnames = [x.id for x in ast.walk(node.target) if isinstance(x, ast.Name)]
+            if not (isinstance(node.target, ast.Name) or (isinstance(node.target, ast.Tuple) and all(isinstance(x, ast.Name) for x in node.target.elts))):
+                return node
+            for st in node.body:
+                for x in ast.walk(st):
+                    if isinstance(x, (ast.Break, ast.Continue)):
+                        return node
+                    if isinstance(x, ast.Name) and x.id in tnames and isinstance(x.ctx, ast.Store):
+                        return node
+            if isinstance(node.target, ast.Tuple) and not all(isinstance(e, (ast.Tuple, ast.List)) and len(e.elts) == len(node.target.elts) for e in elts):
+                return node
+            out = []
+            for el in elts:
+                env = {node.target.id: el} if isinstance(node.target, ast.Name) else {t.id: v for t, v in zip(node.target.elts, el.elts)}
+
+                class S(ast.NodeTransformer):
+                    def visit_Name(self, n):
+                        if n.id in env and isinstance(n.ctx, ast.Load):
+                            return ast.copy_location(copy.deepcopy(env[n.id]), n)
+                        return n
+                for st in node.body:
+                    out.append(ast.fix_missing_locations(S().visit(copy.deepcopy(st))))
+            changed[0] = True
+            return out
+
+    root = copy.deepcopy(fi.node)
+    for n in ast.walk(root):
+        for ch in ast.iter_child_nodes(n):
+            ch._parent = n
+    new = U().visit(root)
+    if not changed[0]:
+        fi._unrolled = fi
+        return fi
+    for n in ast.walk(new):
+        for ch in ast.iter_child_nodes(n):
+            ch._parent = n
+    fi2 = copy.copy(fi)
+    fi2.node = new
+    fi2.unrolled_from = fi
+    fi2._unrolled = fi2
+    fi._unrolled = fi2
+    return fi2
